@@ -488,6 +488,24 @@ class MiniEval:
                 # PyTeal expressions overload ==: `x == y` builds a (truthy) Eq expression, so membership of an
                 # expression in a list of expressions is true as soon as the list is non-empty
                 res = len(right) > 0
+            elif isinstance(right, (list, tuple)) and ((isinstance(left, Sym) and "__eq__" in left.methods) or any(isinstance(x, Sym) and "__eq__" in x.methods for x in right)):
+                # membership uses the modelled objects' own __eq__ (identity first, as Python does)
+                res = False
+                for x in right:
+                    if x is left:
+                        res = True
+                        break
+                    if isinstance(x, Sym) and "__eq__" in x.methods:
+                        if self.truth(x.methods["__eq__"](left)):
+                            res = True
+                            break
+                    elif isinstance(left, Sym) and "__eq__" in left.methods:
+                        if self.truth(left.methods["__eq__"](x)):
+                            res = True
+                            break
+                    elif x == left:
+                        res = True
+                        break
             else:
                 res = left in right
             return res if isinstance(op, ast.In) else (not res)
